@@ -375,6 +375,16 @@ func (s *symExec) expr(e ast.Expr) *Poly {
 		case token.EQL, token.NEQ, token.LSS, token.LEQ, token.GTR, token.GEQ, token.LAND, token.LOR:
 			return polyAtom("(" + a.String() + " " + x.Op.String() + " " + b.String() + ")")
 		}
+	case *ast.CompositeLit:
+		var parts []string
+		for _, el := range x.Elts {
+			if kv, ok := el.(*ast.KeyValueExpr); ok {
+				parts = append(parts, s.expr(kv.Value).String())
+			} else {
+				parts = append(parts, s.expr(el).String())
+			}
+		}
+		return polyAtom("lit{" + strings.Join(parts, ";") + "}")
 	case *ast.IndexExpr:
 		return polyAtom("idx(" + s.expr(x.X).String() + "," + s.expr(x.Index).String() + ")")
 	case *ast.SelectorExpr:
